@@ -763,6 +763,7 @@ package lang
 //@   init $failMark = 0
 //@   after Evaluator.evalCaseMatch: $failMark = (ret0 ? $failMark : $alloc)
 //@   exit[C09,C19] identifier-binds-a-copy-not-the-matched-cell: err == nil && result0 && istype(expr, *ExprIdentifier) ==> has(result1, ident) && fresh(result1[ident]) && result1[ident].Value.Tag == value.Value.Tag && (value.Value.Tag != ValueFn && value.Value.Tag != ValueNativeFn && value.Value.Tag != ValueArray && value.Value.Tag != ValueObj && value.Value.Tag != ValueUnknown ==> result1[ident].Value.ParentObj == nil)
+//@   exit[C08,C09,C19] a-bound-function-is-a-variable-of-its-own-not-a-member-of-its-receiver: err == nil && result0 && istype(expr, *ExprIdentifier) && (value.Value.Tag == ValueFn || value.Value.Tag == ValueNativeFn) ==> has(result1, ident) && result1[ident].Value.ParentObj == nil
 //@   exit[C08,C19] bindings-come-from-the-matching-alternative-only: err == nil && result0 && result1 != nil ==> newerThan(result1, $failMark)
 //@   after Evaluator.evalExpr: $lit = ret0
 //@   after Value.Equals: $eqSeen = $eqSeen || (ret1 == nil && ret0)
